@@ -2,6 +2,7 @@ package checks
 
 import (
 	"fmt"
+	"strings"
 
 	dtpb "github.com/google/fhir/go/proto/google/fhir/proto/r4/core/datatypes_go_proto"
 	"github.com/verily-src/fhirpath-go/fhirpath/system"
@@ -85,6 +86,9 @@ func c10LargeOne(r *core.Rec, lc c10LargeCase) {
 	n := len(c)
 	env := c10Env(c)
 	tx := lc.name[len(fmt.Sprintf("n=%d.", n)):]
+	if k := strings.Index(tx, ":"); k >= 0 {
+		tx = tx[:k]
+	}
 	run := func(src string) lib.Res {
 		res := lib.Run(src, nil, env)
 		r.Eval()
@@ -134,7 +138,7 @@ func c10LargeOne(r *core.Rec, lc c10LargeCase) {
 		crits = []crit{{"eq", "$this = 's1'", func(k int, it c10Item) bool { return it.cls == "s1" }},
 			{"none", "$this = 'zz'", func(k int, it c10Item) bool { return false }}, {"every", "$this.length() = 2", func(k int, it c10Item) bool { return true }}}
 	default:
-		crits = []crit{{"eq", "family = 'F0'", func(k int, it c10Item) bool { return it.cls == "F0" }},
+		crits = []crit{{"eq", "family = 'F0'", func(k int, it c10Item) bool { return it.v.(*dtpb.HumanName).GetFamily().GetValue() == "F0" }},
 			{"none", "family = 'zz'", func(k int, it c10Item) bool { return false }}, {"every", "family.exists()", func(k int, it c10Item) bool { return true }}}
 	}
 	for _, cr := range crits {
@@ -247,4 +251,34 @@ func c10LargeOne(r *core.Rec, lc c10LargeCase) {
 		c10NoNil(r, "intersect", ri, core.W{"collection": lc.name, "d": dn})
 		dupFreeOver("intersect", "d="+dn, ri, inter)
 	}
+}
+
+// c10SameIDCases: all sequences of length 2..4 over four complex elements of one type: A1 and A3 are equal copies
+// (same element id, same content), A2 shares the id with them but not the content, A4 shares the content but not the id.
+// An element id is part of the element, it is not its identity: A1 = A3, and A2, A4 are each their own class.
+func c10SameIDCases() []c10LargeCase {
+	mk := func(id, fam string) *dtpb.HumanName { return &dtpb.HumanName{Id: fhir.String(id), Family: fhir.String(fam)} }
+	alpha := []c10Item{
+		{id: "A1", v: mk("n1", "F0"), cls: "n1/F0", typ: "HumanName"}, {id: "A2", v: mk("n1", "Lee"), cls: "n1/Lee", typ: "HumanName"},
+		{id: "A3", v: mk("n1", "F0"), cls: "n1/F0", typ: "HumanName"}, {id: "A4", v: mk("n2", "F0"), cls: "n2/F0", typ: "HumanName"},
+	}
+	var out []c10LargeCase
+	for n := 2; n <= 4; n++ {
+		total := 1
+		for k := 0; k < n; k++ {
+			total *= len(alpha)
+		}
+		for code := 0; code < total; code++ {
+			items := make([]c10Item, n)
+			name := ""
+			c := code
+			for k := 0; k < n; k++ {
+				items[k] = alpha[c%len(alpha)]
+				name += items[k].id
+				c /= len(alpha)
+			}
+			out = append(out, c10LargeCase{fmt.Sprintf("n=%d.same-id:%s", n, name), items})
+		}
+	}
+	return out
 }
